@@ -122,7 +122,7 @@ def run_c17(tier, seed, t0):
     for h in hists:
         for e in h["events"]:
             ops[e["op"]] = ops.get(e["op"], 0) + 1
-    for need in ("insert", "remove", "next", "prev", "hold", "check", "iter_next", "iter_back", "extend", "clear"):
+    for need in ("insert", "remove", "next", "prev", "hold", "check", "iter_next", "iter_back", "iter_nth", "iter_nth_back", "extend", "clear", "get_mut", "index", "index_mut", "is_empty"):
         if ops.get(need, 0) == 0:
             raise ToolError("vacuity: no '%s' event in the recorded histories" % need)
     cov = {
@@ -155,14 +155,14 @@ def scenario(args_list, path):
                 f.write(outl[-1] + "\n")
             else:
                 why = "timeout" if rc == -999 else ("signal %d" % -rc if rc < 0 else "exit %d" % rc)
-                f.write(json.dumps({"ev": "stack", "scenario": sc, "n": n, "stack_kb": kb, "hwm": 0, "exit": why, "size": 0, "popped": 0, "polys": 0}) + "\n")
+                f.write(json.dumps({"ev": "stack", "scenario": sc, "n": n, "stack_kb": kb, "hwm": 0, "exit": why, "size": 0, "popped": 0, "polys": 0, "area2": 0}) + "\n")
             log("  scenario %-28s n=%-8d stack=%dKiB %.1fs" % (sc, n, kb, time.time() - t))
 
 
 def validate_stack(path, wd, budget):
-    cfg = "SPECIFICATION Spec\nCONSTANTS StackBudget = %d\nINVARIANTS\n  C18_Completes\n  C18_StackIndependentOfSize\n  C03_EventBound\nCHECK_DEADLOCK TRUE\n" % budget
+    cfg = "SPECIFICATION Spec\nCONSTANTS StackBudget = %d\nINVARIANTS\n  C18_Completes\n  C18_StackIndependentOfSize\n  C03_EventBound\n  C01_LargeResultShape\nCHECK_DEADLOCK TRUE\n" % budget
     out, dt = vlib.run_tlc("TraceStack.tla", cfg, wd, env={"TRACEFILE": path}, timeout=600, workers=2)
-    res = vlib.parse_tlc(out, {"C18_Completes", "C18_StackIndependentOfSize", "C03_EventBound"})
+    res = vlib.parse_tlc(out, {"C18_Completes", "C18_StackIndependentOfSize", "C03_EventBound", "C01_LargeResultShape"})
     if res["tool_errors"]:
         raise ToolError("TraceStack: %s" % res["tool_errors"][:3])
     fails = [(k, int(i)) for (k, i) in set(re.findall(r'<<"STACKFAIL", "(\w+)", (\d+)>>', out))]
